@@ -180,11 +180,11 @@ PLAN = {
     "C08": {"level": "exploration", "engines": REUSE, "min_nontrivial": 50, "assumptions": CONC_ASSUMPTIONS + ["one writer per key, so each key's writes form a sequence with recorded intervals; readers never modify"]},
     "C02": {"level": "fault_enumeration", "engines": _both(_crash("ack", 14, 240), _crash_chain), "min_nontrivial": 200, "assumptions": CRASH_ASSUMPTIONS},
     "C03": {"level": "fault_enumeration", "engines": _crash("all", 14, 240), "min_nontrivial": 200, "assumptions": CRASH_ASSUMPTIONS},
-    "C04": {"level": "fault_enumeration", "engines": _crash("idem", 4, 60, cuts_q=50, cuts_t=120), "min_nontrivial": 50, "assumptions": CRASH_ASSUMPTIONS},
+    "C04": {"level": "fault_enumeration", "engines": _both(_crash("idem", 4, 60, cuts_q=50, cuts_t=120), _sweep("bigretire", 2, 2, 24, 8)), "min_nontrivial": 50, "assumptions": CRASH_ASSUMPTIONS},
     "C01": {"level": "exploration", "engines": _model("all"), "min_nontrivial": 500, "assumptions": MODEL_ASSUMPTIONS},
     "C10": {"level": "exploration", "engines": _model("layout", quick_programs=24, thorough_programs=400), "min_nontrivial": 300,
             "assumptions": MODEL_ASSUMPTIONS + ["independent codec M6 (harness/src/indep.rs) is the reader; it shares no code with feoxdb"]},
-    "C11": {"level": "exploration", "engines": _both(_model("ttl"), _sweep("sweeper", 6, 3, 60, 8), _sweep("ttlcrash", 8, 8, 160, 16)), "min_nontrivial": 300,
+    "C11": {"level": "exploration", "engines": _both(_model("ttl"), _sweep("sweeper", 6, 3, 60, 8), _sweep("ttlcrash", 8, 8, 160, 16), _sweep("bigretire", 2, 2, 24, 8)), "min_nontrivial": 300,
             "assumptions": MODEL_ASSUMPTIONS + CONC_ASSUMPTIONS[:2] + ["sweeper runs use the process-wide virtual clock offset (hook H6) for jumps; bounds around calls are taken from that clock before and after each call"]},
     "C12": {"level": "exploration", "engines": _model("ts"), "min_nontrivial": 300, "assumptions": MODEL_ASSUMPTIONS},
     "C13": {"level": "exploration", "engines": _both(_model("mem"), MEMLIMIT, _conc("lin", 6, 12, {"histories": 400}, {"histories": 8000})), "min_nontrivial": 300, "assumptions": MODEL_ASSUMPTIONS + CONC_ASSUMPTIONS},
